@@ -56,6 +56,7 @@ let os_cpu = ref 0
 let os_maxnodes = ref 64
 let os_pm_unsupported = ref false
 let os_affproc : bset option ref = ref None
+let os_stat : int list option ref = ref None
 let parked = ref false   (* the harness started its second (parked) thread: first stcbo / gtcbo of the process *)
 let nbprocs = ref 16
 let kret name = match Stdlib.Hashtbl.find_opt os_ret name with Some (rc, e) when rc < 0 -> Some (rc, e) | _ -> None
@@ -67,7 +68,11 @@ let scripted_kernel (c : kcall) () =
     | K_setaffinity (_, _) -> answer "setaffinity" (fun () -> kres ())
     | K_getaffinity w -> answer "getaffinity" (fun () -> kres ~set:(if int_of_z w = 0 then !os_aff else (match !os_affproc with Some p -> p | None -> !os_aff)) ())
     | K_getcpu -> answer "getcpu" (fun () -> kres ~rc:!os_cpu ())
-    | K_lastcpu _ -> kres ~set:{ fin = n_of_int 1; inf = false } ()
+    | K_lastcpu _ ->
+      (* the bytes of /proc/<tid>/stat: scripted, or (real file, result masked by the check) a plain line saying PU 0 *)
+      let content = (match !os_stat with Some b -> b | None ->
+        Stdlib.List.map Stdlib.Char.code (Stdlib.List.of_seq (Stdlib.String.to_seq ("1 (x) S" ^ Stdlib.String.concat "" (Stdlib.List.init 35 (fun _ -> " 1")) ^ " 17 0 0 0\n")))) in
+      kres ~l:(Stdlib.List.map z_of_int content) ()
     | K_tasklist _ -> kres ~l:(if !parked then [z_of_int 1; z_of_int 2] else [z_of_int 1]) ()   (* /proc/<pid>/task: main thread, parked worker *)
     | K_set_mempolicy (m, _, _) -> if !os_pm_unsupported && int_of_z m = 5 then kres ~rc:(-1) ~e:EINVAL () else answer "set_mempolicy" (fun () -> kres ())
     | K_mbind (_, m, _, _, _) -> if !os_pm_unsupported && int_of_z m = 5 then kres ~rc:(-1) ~e:EINVAL () else answer "mbind" (fun () -> kres ())
@@ -84,7 +89,8 @@ let ktext = function
   | K_setaffinity (w, m) -> Some (Printf.sprintf "setaffinity(%s,%s)" (who_text w) (text_of_bset m))
   | K_getaffinity w -> Some (Printf.sprintf "getaffinity(%s)" (who_text w))
   | K_getcpu -> Some "getcpu()"
-  | K_lastcpu _ | K_tasklist _ | K_mmap _ -> None
+  | K_lastcpu w -> Some (Printf.sprintf "stat(%s)" (if int_of_z w = 1 then "self" else "other"))
+  | K_tasklist _ | K_mmap _ -> None
   | K_set_mempolicy (m, mask, mx) -> Some (Printf.sprintf "set_mempolicy(%d,%s,%d)" (int_of_z m) (mask_text mask) (int_of_n mx))
   | K_mbind (len, m, mask, mx, fl) -> Some (Printf.sprintf "mbind(page,%d,%d,%s,%d,%d)" (int_of_n len) (int_of_z m) (mask_text mask) (int_of_n mx) (int_of_n fl))
   | K_migrate_pages (mx, o, nw) -> Some (Printf.sprintf "migrate_pages(%d,%s,%s)" (int_of_n mx) (text_of_bset o) (text_of_bset nw))
@@ -204,6 +210,9 @@ let () =
        else Stdlib.Hashtbl.replace os_ret name (int_of_c rc, e)
      | ["os"; "mempol"; m; s] -> os_mempol := (int_of_c m, bs s)
      | ["os"; "pages"; n] -> os_pages := int_of_c n
+     | ["os"; "stat"; h] ->
+       os_stat := (if h = "-" then None else if h = "empty" then Some [] else
+                     Some (Stdlib.List.init (Stdlib.String.length h / 2) (fun i -> int_of_string ("0x" ^ Stdlib.String.sub h (2 * i) 2))))
      | ["os"; "cpu"; n] -> os_cpu := int_of_c n
      | ["os"; "maxnodes"; n] -> os_maxnodes := int_of_c n
      | ["os"; "pm_unsupported"; n] -> os_pm_unsupported := (int_of_c n <> 0)
